@@ -5,7 +5,9 @@
 // truth of C17. No coca imports.
 //
 // What is deliberately never generated (the C17 statement leaves it open, see DESIGN §4 C17 and the adapter):
-//   - Javadoc-style `/** TODO`, and a TODO/FIXME word at the start of a continuation line of a block comment;
+//   - Javadoc-style `/** TODO`, ` * TODO` after the opener, and a TODO/FIXME word at the start of a continuation line of a
+//     block comment that has other text before it (a marker that follows `/*` after nothing but blanks and line breaks
+//     IS generated: line breaks are blanks, the comment starts at the opener);
 //   - a marker followed by anything but end-of-text, a blank, ':' or '(name)' (`TODOS`, `TODO-x`, `TODO_1`), a blank
 //     between the marker and ':' or '(', `::`, `()`, a message that starts with '(' or ':';
 //   - doubled comment markers of the same kind (`////`, `##`, `//*`, `///`) in front of a marker (a character that opens
@@ -36,10 +38,12 @@ type Planted struct {
 	Tight    bool   `json:"tight"` // no blank between the comment marker and TODO/FIXME
 	Marker   string `json:"marker"`
 	Assignee string `json:"assignee"`
-	Message  string `json:"message"`  // raw remaining text (block: up to the terminator)
-	Multi    bool   `json:"multi"`    // block comment spanning several lines
-	Optional bool   `json:"optional"` // unterminated `/* TODO` at end of file: the statement only demands "no crash"
-	Src      string `json:"src"`
+	Message  string `json:"message"` // raw remaining text (block: up to the terminator)
+	Multi    bool   `json:"multi"`   // block comment whose message spans several lines
+	// MarkerLineOffset: line breaks between `/*` and the marker word (0 = marker on the opener's line)
+	MarkerLineOffset int    `json:"marker_line_offset,omitempty"`
+	Optional         bool   `json:"optional"` // unterminated `/* TODO` at end of file: the statement only demands "no crash"
+	Src              string `json:"src"`
 }
 
 // Decoy is something that must NOT be reported.
@@ -49,14 +53,20 @@ type Decoy struct {
 	Src  string `json:"src"`
 }
 
+// LookalikeExts are OTHER extensions that merely end in the letters of a member of Exts (.mjs/.cjs ~ .js, .ipy ~ .py,
+// .mts/.cts ~ .ts, .cgo ~ .go, .sjava ~ .java): files carrying them are not selected by any filter drawn from Exts.
+var LookalikeExts = []string{".mjs", ".cjs", ".ipy", ".mts", ".cts", ".cgo", ".sjava"}
+
 type File struct {
-	Rel     string    `json:"rel"`
-	Ext     string    `json:"ext"`
-	Text    string    `json:"text"`
-	Planted []Planted `json:"planted"`
-	Decoys  []Decoy   `json:"decoys"`
-	CRLF    bool      `json:"crlf"`
-	shape   []string
+	Rel       string    `json:"rel"`
+	Ext       string    `json:"ext"`
+	Lookalike bool      `json:"lookalike,omitempty"`
+	LongLine  int       `json:"long_line_bytes,omitempty"` // length of the >= 64 KiB first line, if the file has one
+	Text      string    `json:"text"`
+	Planted   []Planted `json:"planted"`
+	Decoys    []Decoy   `json:"decoys"`
+	CRLF      bool      `json:"crlf"`
+	shape     []string
 }
 
 type Tree struct {
@@ -254,6 +264,9 @@ func (g *gen) comment(kind string, allowMulti bool) {
 		m := r.Pick(markers)
 		tail := r.Pick([]string{"", ":", ": " + strings.Join(g.message(), " "), " " + strings.Join(g.message(), " "), "(" + r.Pick(names) + "): x"})
 		lead := r.Pick([]string{"", " ", "  "})
+		if kind == "block" && allowMulti && r.Chance(1, 6) {
+			lead = g.nl() + r.Pick([]string{"", "  ", "    "})
+		}
 		switch v := r.Intn(12); {
 		case v >= 10:
 			// the text begins, directly after the comment marker, with a character that opens ANOTHER kind of comment
@@ -306,6 +319,16 @@ func (g *gen) todoComment(kind string, allowMulti bool) {
 	start := g.line
 	p := Planted{Line: start, Kind: kind}
 	lead := r.Pick([]string{"", "", " ", " ", "  ", "\t"})
+	if kind == "block" && allowMulti && r.Chance(1, 4) {
+		// the opener stands alone: one to three line breaks (and blanks) between `/*` and the marker word; the line
+		// break is one of the blanks after the comment marker, the comment still starts at the opener's line
+		lead = r.Pick([]string{"", " "})
+		for k := r.PickInt(1, 1, r.Range(2, 3)); k > 0; k-- {
+			lead += g.nl()
+			p.MarkerLineOffset++
+		}
+		lead += strings.Repeat(" ", r.Range(0, 6))
+	}
 	p.Tight = lead == ""
 	p.Marker = r.Pick(markers)
 	var after string
@@ -370,6 +393,9 @@ func (g *gen) todoComment(kind string, allowMulti bool) {
 	tight := ""
 	if p.Tight {
 		tight = "/tight"
+	}
+	if p.MarkerLineOffset > 0 {
+		multi += "/opener-alone"
 	}
 	g.f.shape = append(g.f.shape, "todo/"+kind+"/"+p.Form+multi+tight+"/"+strings.ToUpper(p.Marker))
 	g.emit(p.Src)
@@ -504,6 +530,34 @@ func indent(r *run.Rand) string {
 	return r.Pick([]string{"", "", "  ", "    ", "\t", "\t\t"})
 }
 
+// longLine writes line 1 of a file: at least 65536 bytes before the line end, free of the marker words.
+func (g *gen) longLine() {
+	r := g.r
+	min := 65536 + r.PickInt(0, 1, r.Range(2, 9000))
+	var sb strings.Builder
+	var shape string
+	switch r.Intn(3) {
+	case 0:
+		shape = "long-line/minified-code"
+		unit := r.Pick([]string{"a=a+1;  ", "f(x,1);", "v[i]=0x1F; ", "n = n - 1 ; "})
+		sb.WriteString(strings.Repeat(unit, min/len(unit)+1))
+	case 1:
+		shape = "long-line/string-literal"
+		unit := r.Pick([]string{"QUJD", "ab//c#", "/*x*/ ", "é0"})
+		sb.WriteString("s = \"" + strings.Repeat(unit, min/len(unit)+1) + "\";")
+	default:
+		shape = "long-line/plain-comment"
+		unit := r.Pick([]string{"lorem ipsum ", "x", "- - "})
+		sb.WriteString(r.Pick([]string{"// ", "# "}) + strings.Repeat(unit, min/len(unit)+1))
+	}
+	line := sb.String()
+	g.f.LongLine = len(line)
+	g.f.shape = append(g.f.shape, shape)
+	g.f.Decoys = append(g.f.Decoys, Decoy{Line: 1, What: "plain/long-line", Src: line[:40] + "…"})
+	g.emit(line)
+	g.emit(g.nl())
+}
+
 // genFile writes one file.
 func genFile(r *run.Rand, rel, ext string, uid *int) File {
 	f := File{Rel: rel, Ext: ext}
@@ -516,6 +570,11 @@ func genFile(r *run.Rand, rel, ext string, uid *int) File {
 		// an empty file
 		f.shape = append(f.shape, "empty-file")
 		return f
+	}
+	if r.Chance(1, 64) {
+		// a first line of 64 KiB or more (minified bundle, embedded constant, long comment) that mentions no marker:
+		// everything below it must still be reported, with its line numbers
+		g.longLine()
 	}
 	nLines := r.Range(1, 24)
 	if r.Chance(1, 6) {
@@ -613,6 +672,8 @@ func Generate(r *run.Rand, nFiles int) *Tree {
 		switch {
 		case i == 0 || r.Chance(3, 5):
 			ext = r.Pick(Exts)
+		case r.Chance(1, 3):
+			ext = r.Pick(LookalikeExts)
 		default:
 			ext = r.Pick(otherExts)
 		}
@@ -629,7 +690,13 @@ func Generate(r *run.Rand, nFiles int) *Tree {
 			}
 		}
 		used[rel] = true
-		t.Files = append(t.Files, genFile(r.Fork(), rel, ext, &uid))
+		f := genFile(r.Fork(), rel, ext, &uid)
+		for _, l := range LookalikeExts {
+			if ext == l {
+				f.Lookalike = true
+			}
+		}
+		t.Files = append(t.Files, f)
 	}
 	return t
 }
